@@ -535,6 +535,12 @@ int main(int argc, char **argv) {
     }
     const Case &c = cases[(i0 + off) % NC];
     run_case(c, R, S);
+    if (c20::g_aborts > 50) {
+      // every abort leaks HDF5 handles; the violations are recorded already
+      R.cap(fmt("stopped after %lu aborted operations (%zu of %zu cases done)", c20::g_aborts, done + 1, NC));
+      ++done;
+      break;
+    }
     if (c.field != F_UNIFORM || c.s[0] * c.s[1] * c.s[2] > 1)
       ++nontrivial;
     if (done < 2)
